@@ -84,7 +84,11 @@ impl<'a> Ev<'a> {
             t
         });
         let Some(bv) = &base.v else {
-            // opaque: assume the path exists (the generator never puts such a lens where failure would matter)
+            // opaque: assume the path exists (the generator picks lenses that fit the value's shape), except for the
+            // deliberately failing field, which no value of the service table has whatever its arguments were
+            if lens.iter().any(|l| matches!(l, Lens::Field(f) if f == "nosuch")) {
+                return Res::Fail;
+            }
             if lens.iter().any(|l| matches!(l, Lens::VarIdx(_))) {
                 self.unsupported("variable index into an opaque value");
             }
